@@ -132,6 +132,8 @@ def _define():
             self.events.append(('post', time))
             self.t, self.x = time, self._unpack(X)
             self.nsteps += 1
+            if self.nsteps > 5000000:
+                raise RuntimeError('horizon: more than 5e6 accepted steps')      # explicit horizon of every run of this check
             return X, False
 
     class IdentityModel(GenericModel):
@@ -371,13 +373,19 @@ def run_stage_times(case):
     """Whole (t, h) lattice for one iterator and call path; one violation per (iterator, path) with the first failing
     points in the message."""
     it, path, ts, hs = case['it'], case['path'], case['ts'], case['hs']
+    adaptive = bool(case.get('adaptive'))     # step proposed by the model depends on the derivative it is given (shrinks along a step)
     base = ExplicitEulerIterator if it == 'euler' else RK4Iterator
+
+    def hof(h, d):
+        return h / (1.0 + float(np.max(np.abs(d)))) if adaptive else h
     fails, npts, nsteps, distinct = [], 0, 0, 0
     for t0 in ts:
         for h in hs:
             npts += 1
             if t0 + h / 2 == t0 or t0 + h / 2 == t0 + h:
                 continue        # lattice point not resolvable in floats: the four stage times would coincide
+            if adaptive and not (abs(t0) <= 100.0 and 1e-3 <= h <= 1.0):
+                continue        # derivative-dependent steps are up to ~10 x shorter: keep them resolvable and the solution bounded
             distinct += 1
             try:
                 if path == 'direct':
@@ -385,14 +393,17 @@ def run_stage_times(case):
 
                     def f(t, x, getDt=False, _s=seen):
                         _s.append(t)
-                        d = -0.5 * x + math.cos(t)
-                        return (d, h) if getDt else d
-                    base(f, t0, np.array([1.0, -2.0]), lambda x, d, dt: x + d * dt)
-                    steps = [(t0, h, seen)]
+                        d = 0.5 * x + math.cos(t)
+                        return (d, hof(h, d)) if getDt else d
+                    x0_ = np.array([1.0, -2.0])
+                    _, dt_ret = base(f, t0, x0_, lambda x, d, dt: x + d * dt)
+                    steps = [(t0, dt_ret, seen)]          # the step the iterator reports is the step its stages belong to
                 else:
-                    f = lambda t, x: -0.5 * x + math.cos(t)
+                    f = lambda t, x: 0.5 * x + math.cos(t)
                     if path == 'model':
                         m = SysModel(f, t0, [1.0, -2.0], h)
+                        if adaptive:
+                            m.getDt = lambda dXdt, _h=h: hof(_h, np.concatenate([np.atleast_1d(np.asarray(c, dtype=float)) for c in dXdt]))
                         m.solve(3 * h, solverType=_iterator(it, 'enum', None))
                         ev = m.events
                     else:
@@ -401,7 +412,7 @@ def run_stage_times(case):
                         s.setFunctions(postProcess=lambda ct, X, _e=ev: (_e.append(('post', ct)), (X, False))[1])
                         s.setdXdtFunctions(lambda t, x, _e=ev: (_e.append(('f', t)), f(t, x))[1],
                                            lambda dt, x, d, _e=ev: _e.append(('c', dt)),
-                                           lambda dXdt: h, s.flattenXNotImplemented, s.unflattenXNotImplemented)
+                                           lambda dXdt: hof(h, dXdt), s.flattenXNotImplemented, s.unflattenXNotImplemented)
                         s.solve(t0, np.array([1.0, -2.0]), t0 + 3 * h)
                     # split the event log into steps; the step length actually used is the dt of the last
                     # correctdXdt call of the step (the final update), the start is the previous accepted time
@@ -412,7 +423,10 @@ def run_stage_times(case):
                         elif e[0] == 'c':
                             cur_c.append(e[1])
                         else:
-                            steps.append((start, cur_c[-1] if cur_c else float('nan'), cur_f))
+                            dt_used = cur_c[-1] if cur_c else float('nan')
+                            steps.append((start, dt_used, cur_f))
+                            if e[1] != start + dt_used:
+                                fails.append('(t=%r, dt=%r): the clock advanced to %r, the state by a step of %r' % (start, dt_used, e[1], dt_used))
                             cur_f, cur_c, start = [], [], e[1]
             except Exception as e:
                 fails.append('(t=%r, h=%r): %s: %s' % (t0, h, type(e).__name__, e))
@@ -428,7 +442,7 @@ def run_stage_times(case):
                     break
     viol = []
     if fails:
-        viol.append({'sig': '%s-stage-times/%s' % (it, path),
+        viol.append({'sig': '%s-stage-times/%s%s' % (it, path, '/derivative-dependent-step' if adaptive else ''),
                      'msg': '%d of %d lattice points fail; first: %s' % (len(fails), npts, ' | '.join(fails[:3]))})
     return {'viol': viol, 'states': nsteps, 'transitions': nsteps, 'traces': npts,
             'outcome': '%s/%s:%s' % (it, path, 'ok' if not fails else 'wrong-times'), 'nontrivial': distinct > 0,
@@ -548,8 +562,8 @@ def run(ctx):
     hs = LAT_H if quick else LAT_H + LAT_H_X
     ctx.bounds['lattice_t'] = ts
     ctx.bounds['lattice_h'] = hs
-    scases = [{'it': it, 'path': p, 'ts': [t], 'hs': hs} for it in ('euler', 'rk4') for p in ('direct', 'model', 'desolver')
-              for t in ts]
+    scases = [{'it': it, 'path': p, 'ts': [t], 'hs': hs, 'adaptive': ad} for it in ('euler', 'rk4') for p in ('direct', 'model', 'desolver')
+              for t in ts for ad in (False, True)]
     ctx.product_run('stage-times', 'checks.c06:run_stage_times', scases)
 
     mcases = []
